@@ -32,6 +32,10 @@ def anchored():
     return files
 
 
+# properties that also exercise a file although it is not among their anchors
+EXTRA = {"v2/generator/simple_target.go": ["C04"], "generator/default_package.go": ["C04"]}
+
+
 def restore():
     sh(["git", "-C", ROOT, "checkout", "--", "."])
     sh(["git", "-C", ROOT, "clean", "-fdq"])
@@ -57,6 +61,7 @@ def main():
     ap.add_argument("--budget-min", type=float, default=240)
     ap.add_argument("--only", nargs="*")
     ap.add_argument("--summary", action="store_true")
+    ap.add_argument("--retest", action="store_true")
     a = ap.parse_args()
     if a.summary:
         return summary()
@@ -66,7 +71,36 @@ def main():
     if sh(["git", "-C", ROOT, "status", "--porcelain"])[1].strip():
         sys.exit("/repo is not clean")
     files = anchored()
+    for f, ps in EXTRA.items():
+        if f in files:
+            files[f] = files[f] + [p for p in ps if p not in files[f]]
     rng = random.Random(a.seed)
+    if a.retest:
+        rows = [json.loads(l) for l in open(RES)]
+        out = []
+        for r in rows:
+            if r["status"] == "missed" and not r.get("triage"):
+                path = os.path.join(ROOT, r["file"])
+                mod = os.path.join(ROOT, "v2") if r["file"].startswith("v2/") else ROOT
+                rc, _ = sh([BIN, "-file", path, "-apply", str(r["index"]), "-out", path])
+                caught = []
+                if rc == 0 and sh(["go", "build", "./..."], cwd=mod, timeout=300)[0] == 0:
+                    for p in files.get(r["file"], r["props"]):
+                        rc, o = sh(["/verif/check", p], cwd="/verif", timeout=900)
+                        viol = [l for l in o.splitlines() if l.startswith("VIOLATION")]
+                        if viol:
+                            caught.append({"prop": p, "violation": viol[0]})
+                restore()
+                if caught:
+                    r["status"] = "caught"
+                    r["caught_by"] = caught
+                    r["note"] = "missed at first; caught after the harness was widened"
+                print(r["status"], r["file"], r["line"], r["kind"], flush=True)
+            out.append(r)
+        with open(RES, "w") as fh:
+            for r in out:
+                fh.write(json.dumps(r) + "\n")
+        return
     done = set()
     if os.path.exists(RES):
         for l in open(RES):
